@@ -823,7 +823,7 @@ def torch_function_of_numeric_constant(case):
     for ast in _all_asts(case):
         for n in _walk(ast):
             if n[0] == "call" and all(effectively_constant(a) for a in n[2:]):
-                if n[1] in non_sympy or any(E.variables(a) for a in n[2:]):
+                if (n[1] in non_sympy - {"sigmoid", "absv", "maxi", "mini"}) or any(E.variables(a) for a in n[2:]):
                     return True
     return False
 
